@@ -170,6 +170,15 @@ func (r *Runner) loopEnv(st *State, f *Frame) *SEnv {
 			}
 		}
 	}
+	// captured variables of a function literal under contract: their CURRENT values, by name
+	for _, fv := range f.fn.FreeVars {
+		if _, clash := env.vars[fv.Name()]; clash {
+			continue
+		}
+		if pv, ok := f.regs[fv]; ok {
+			env.vars[fv.Name()] = st.load(r.placeOf(pv))
+		}
+	}
 	if f.entry != nil {
 		env.old = r.entryShadow(st, f)
 	}
@@ -268,7 +277,17 @@ func (r *Runner) loopEnter(st *State, f *Frame, hdr *ssa.BasicBlock) {
 	sort.Strings(gk)
 	for _, k := range gk {
 		if old, ok := st.ghost[k]; ok {
-			st.ghost[k] = Fresh("lg", old.Sort)
+			nv := Fresh("lg", old.Sort)
+			if strings.HasPrefix(k, "calls:") {
+				st.assume(Ge(nv, old)) // call counters only grow
+			}
+			st.ghost[k] = nv
+		} else if strings.HasPrefix(k, "calls:") {
+			// a call counter first touched inside the loop: arbitrary at the head of an arbitrary iteration
+			// (falling back to its entry value would say "never called so far")
+			c := Fresh("lg_calls", SInt)
+			st.assume(Ge(c, r.callsTerm(st, strings.TrimPrefix(k, "calls:"))))
+			st.ghost[k] = c
 		} else {
 			delete(st.ghost, k)
 		}
